@@ -223,7 +223,7 @@ class Replay:
             table = LCLS if t == "lparams" else ECLS
             objs = [table[sh["pk"]][names[0]](own1), table[sh["pk"]][names[1]](own2)]
             if t == "lparams":
-                self.w = {1: SafeLearner(objs[0]), 2: SafeLearner(objs[1])}
+                self.w = {i + 1: (SafeLearner(SafeLearner(o)) if sh["nest"] else SafeLearner(o)) for i, o in enumerate(objs)}
             else:
                 if sh["idx"] == "pipe": objs = [Pipes.join(o, IdFilter()) for o in objs]
                 self.w = {i + 1: (SafeEnvironment(SafeEnvironment(o)) if sh["nest"] else SafeEnvironment(o)) for i, o in enumerate(objs)}
@@ -416,20 +416,26 @@ def part_a(ctx, mods):
     ctx.extra["safewrap_action_coverage"] = {a: r.coverage.get(a, [0, 0])[1] for a in ACTIONS_A}
     rejected = {}
     for variant, inv, tbls in (("write_through", "DefaultIsOwnClass", '"lparams", "env"'), ("translate_all", "OwnPass", '"learn"'), ("latch_direct", "RefusalNeverEscapes", '"learn", "calls"')):
-        cfg = tracecheck._cfg("SafeWrap.cfg", {'Variant = "spec"': 'Variant = "%s"' % variant, "INVARIANT Emit": "", "MaxLen = 3": "MaxLen = 2",
+        cfg = tracecheck._cfg("SafeWrap.cfg", {'Variant = "spec"': 'Variant = "%s"' % variant, "MaxLen = 3": "MaxLen = 2",
                                                'Tables = {"lparams", "env", "eval", "learn", "calls"}': 'Tables = {%s}' % tbls}, ctx.scratch, "safewrap_%s.cfg" % variant)
+        # only the invariant that states the fact this design breaks (TLC stops at the first violation it meets)
+        txt = "\n".join(ln for ln in open(cfg).read().splitlines() if not ln.startswith(("INVARIANT", "PROPERTY")) or ln.split()[1] == inv) + "\n"
+        open(cfg, "w").write(txt)
         rv = tlc.run("SafeWrap", cfg, ctx.scratch, workers=8, timeout=900, seed=ctx.seed)
         ctx.add_tlc("SafeWrap variant %s" % variant, rv)
         names = sorted({v["name"] for v in rv.violations})
         rejected[variant] = names
         if inv not in names: raise MachineryError("vacuous: the broken design %s is not rejected by %s (violations: %s)" % (variant, inv, names))
     ctx.extra["safewrap_variants_rejected"] = rejected
-    # 2. the tables
-    cfg = tracecheck._cfg("SafeWrap.cfg", {"MaxLen = 3": "MaxLen = %d" % maxlen}, ctx.scratch, "safewrap_gen.cfg")
-    r = tlc.run("SafeWrap", cfg, ctx.scratch, workers=8, timeout=3000, seed=ctx.seed, heap="8g")
-    ctx.add_tlc("SafeWrap tables MaxLen=%d" % maxlen, r)
-    for v in r.violations: ctx.violation("spec:%s" % v["name"], "SafeWrap.tla violates %s" % v["name"], v["trace"][:40])
-    cases = [j for j in r.json if isinstance(j, dict) and "tbl" in j]
+    # 2. the tables (thorough: all tables with programs of 4 calls, and the params / evaluator / learn tables once more with 5)
+    cases = []
+    runs = [(maxlen, '"lparams", "env", "eval", "learn", "calls"')] + ctx.pick([], [(5, '"lparams", "eval", "learn"')])
+    for ml, tbls in runs:
+        cfg = tracecheck._cfg("SafeWrap.cfg", {"MaxLen = 3": "MaxLen = %d" % ml, 'Tables = {"lparams", "env", "eval", "learn", "calls"}': 'Tables = {%s}' % tbls}, ctx.scratch, "safewrap_gen%d.cfg" % ml)
+        r = tlc.run("SafeWrap", cfg, ctx.scratch, workers=8, timeout=3000, seed=ctx.seed, heap="8g")
+        ctx.add_tlc("SafeWrap tables MaxLen=%d {%s}" % (ml, tbls), r)
+        for v in r.violations: ctx.violation("spec:%s" % v["name"], "SafeWrap.tla violates %s" % v["name"], v["trace"][:40])
+        cases += [j for j in r.json if isinstance(j, dict) and "tbl" in j]
     if len(cases) < 30000: raise MachineryError("SafeWrap produced only %d cases" % len(cases))
     cases.sort(key=lambda c: json.dumps([c["tbl"], c["shape"], c["prog"]], sort_keys=True))
     ctx.exhaustive = True
@@ -718,7 +724,7 @@ def part_b(ctx, mods):
     # ---- validation by TLC (one run for all traces; the unexplained ones once more, together, with the Diag invariant)
     ctx.extra["igl_traces"] = len(traces)
     ctx.extra["igl_events_recorded"] = sorted({e["e"] for t in traces for e in t["ev"]})
-    rej = igl_validate(ctx, traces, {}, "igl_trace")
+    rej = igl_validate(ctx, traces, {}, "igl_trace", coverage=True)
     ctx.traces += len(traces)
     if rej:
         wants = igl_diagnose(ctx, [traces[i - 1] for i in rej])
@@ -728,7 +734,9 @@ def part_b(ctx, mods):
     good = [t for i, t in enumerate(traces) if i not in rejected_idx]
     for variant, need in (("learn_reward", lambda t: len(t["ev"]) > 2), ("seed0_falsy", lambda t: t["mode"]["fmt"] == "pmf" and t["mode"]["sev"] == 0 and len(t["ev"]) > 2)):
         sub = [t for t in good if need(t)][:300]
-        if len(sub) < 5: raise MachineryError("too few accepted traces (%d) to try variant %s" % (len(sub), variant))
+        if len(sub) < 5:
+            if any(ctx.viol): continue        # the implementation is rejected anyway: nothing to show with accepted executions
+            raise MachineryError("too few accepted traces (%d) to try variant %s" % (len(sub), variant))
         save = (ctx.traces, ctx.states, ctx.transitions)
         rj = validate_quiet(ctx, sub, {'Variant = "spec"': 'Variant = "%s"' % variant}, "igl_" + variant)
         ctx.traces = save[0]
@@ -742,16 +750,20 @@ def part_b(ctx, mods):
     save = ctx.traces
     rj = validate_quiet(ctx, sub, {}, "igl_corrupt") if sub else []
     ctx.traces = save
-    if len(sub) < 3 or len(rj) != len(sub): raise MachineryError("binding self-test: %d of %d corrupted traces rejected" % (len(rj), len(sub)))
+    if (len(sub) < 3 and not any(ctx.viol)) or len(rj) != len(sub): raise MachineryError("binding self-test: %d of %d corrupted traces rejected" % (len(rj), len(sub)))
     ctx.extra["igl_corrupted_traces_rejected"] = "%d/%d" % (len(rj), len(sub))
 
 
-def igl_validate(ctx, traces, subst, name):
+ACTIONS_B = ["Reject", "Begin", "Start", "Predict", "LearnStep", "Row", "Finish"]
+
+
+def igl_validate(ctx, traces, subst, name, coverage=False):
     """1-based indices of the traces TLC does not accept (tracecheck's batch idiom: {"acc": tid} lines)"""
     tf = os.path.join(ctx.scratch, name + ".json"); json.dump(traces, open(tf, "w"))
     cfg = tracecheck._cfg("IGL.cfg", subst, ctx.scratch, name + ".cfg")
-    r = tlc.run("IGL", cfg, ctx.scratch, workers=8, env={"TRACE_FILE": tf}, timeout=1800, continue_=True)
-    ctx.add_tlc(name, r)
+    r = tlc.run("IGL", cfg, ctx.scratch, workers=8, env={"TRACE_FILE": tf}, timeout=1800, continue_=True, coverage=coverage)
+    ctx.add_tlc(name, r, required_actions=ACTIONS_B if coverage else ())
+    if coverage: ctx.extra["igl_action_coverage"] = {a: r.coverage.get(a, [0, 0])[1] for a in ACTIONS_B}
     acc = {j["acc"] for j in r.json if isinstance(j, dict) and "acc" in j}
     bad = set()
     for v in r.violations:            # an invariant violated inside a trace: the error trace names the tid
